@@ -110,8 +110,13 @@ def run_property(mod, tier: str, seed: int, t0: float, only_part=None) -> int:
                 harness_problems.append(str(e))
                 continue
             try:
+                wrec = Rec()
+                # other open known findings stay excluded while a witness is replayed
+                wrec.open_keys = open_keys - {f.get("key")}
                 with _quiet_stderr():
-                    part.check(wcase, Rec())
+                    part.check(wcase, wrec)
+                failed = None
+            except Excluded:
                 failed = None
             except Violation as v:
                 failed = v
